@@ -48,3 +48,9 @@ Print Assumptions C02_forked_worker_reads_current_results.
 Theorem C02_rebound_results_refuted : exists ops, ~ Forall (fun p => fst p = snd p) (vrun ViewRebinds v_init ops).
 Proof. exact view_rebinds_refuted. Qed.
 Print Assumptions C02_rebound_results_refuted.
+
+(* a history on which the two alternatives differ: an independent result is stored and released (the dict is empty once), then a
+   dependency's result is stored and a worker is forked — with the source's in-place dict the worker is handed that result *)
+Example C02_forked_worker_example :
+  vrun results_view_src v_init [VPut 1 7; VRemove [1]; VPut 2 8; VFork] = [([(2, 8)], [(2, 8)])].
+Proof. vm_compute. reflexivity. Qed.
